@@ -292,7 +292,8 @@ type ReplayFile struct {
 	Message  string          `json:"message"`
 	Seed     int64           `json:"seed"`
 	Tier     string          `json:"tier"`
-	Arch     string          `json:"arch,omitempty"` // GOARCH of the process that found it (the driver replays 386 findings with the 32-bit build)
+	Arch     string          `json:"arch,omitempty"`      // GOARCH of the process that found it (the driver replays 386 findings with the 32-bit build)
+	BuildTag string          `json:"build_tag,omitempty"` // the library's own build tag the finding process was built with, if any
 	Case     json.RawMessage `json:"case"`
 }
 
@@ -327,7 +328,7 @@ func writeReplays() {
 		if err != nil {
 			raw, _ = json.Marshal(fmt.Sprintf("%#v", p.c))
 		}
-		rf := ReplayFile{Property: out.Property, Check: check, Message: p.msg, Seed: Seed(), Tier: Tier(), Arch: runtime.GOARCH, Case: raw}
+		rf := ReplayFile{Property: out.Property, Check: check, Message: p.msg, Seed: Seed(), Tier: Tier(), Arch: runtime.GOARCH, BuildTag: os.Getenv("VERIF_BUILD_TAG"), Case: raw}
 		b, _ := json.MarshalIndent(rf, "", " ")
 		dir := filepath.Join(Root(), "replays", out.Property)
 		os.MkdirAll(dir, 0o755)
